@@ -256,6 +256,11 @@ def run(pid, tier, seed, res, seeds_extra=None, only=None):
             only_debug = all(t["debug"].get(x) for x in diff)
             prop = "C13" if only_debug and q["kind"] != "setup" else owner
             res.hit(prop, "monitor", "%s selects %s, documented closure is %s" % (qdesc(q), r["nodes"], m_nodes), dict(base, kind="monitor", query=q))
+            if "executed" in r and r.get("run_status") == "ok" and prop == "C12":
+                # C03: exactly the selected nodes are entered, the selection being the documented one
+                expect_ = sorted(set(m_nodes) - set(r["pre"]))
+                if r["executed"] != expect_:
+                    res.hit("C03", "monitor", "%s executed %s, the documented selection is %s" % (qdesc(q), r["executed"], expect_), dict(base, kind="monitor", query=q))
         # tables carried by the selected graph
         for n_, v in r.get("cp", {}).items():
             if v != t["cp"][n_]:
